@@ -117,6 +117,8 @@ pub fn gen_verdict_case(t: &mut Tape) -> VerdictCase {
 pub fn gen_verdict_case_with(t: &mut Tape, force: Option<u64>) -> VerdictCase {
     let w = if t.chance(1, 2) { 8 } else { 4 };
     let depth = 1 + t.below(4) as usize; // number of derivation steps
+    let has_cell = t.chance(1, 2);
+    let cell_first = t.chance(1, 2);
     let mut m = Mod {
         path: vec!["h".into()],
         ..Default::default()
@@ -323,6 +325,13 @@ pub fn gen_verdict_case_with(t: &mut Tape, force: Option<u64>) -> VerdictCase {
             fields.push(side);
         }
         fields.push(Field::new(&format!("own{level}"), Ty::n("u64")));
+        // a member (or an array of members) of a plain type of the program, declared before or after the chain
+        let mut uses_cell = false;
+        if has_cell && t.chance(1, 2) {
+            uses_cell = true;
+            let ty = if t.chance(2, 3) { Ty::n("Cell").arr(1 + t.below(3)) } else { Ty::n("Cell") };
+            fields.push(Field::new(&format!("cells{level}"), ty));
+        }
         let level_type = Item::Type(TypeDef {
             vis: true,
             name: format!("L{level}"),
@@ -335,6 +344,9 @@ pub fn gen_verdict_case_with(t: &mut Tape, force: Option<u64>) -> VerdictCase {
             (true, Some(shadow)) => {
                 second.uses.push(vec!["h".into(), format!("L{}", level - 1)]);
                 second.uses.push(vec!["h".into(), "Side".into()]);
+                if uses_cell {
+                    second.uses.push(vec!["h".into(), "Cell".into()]);
+                }
                 if shadow {
                     second.items.push(Item::Type(TypeDef {
                         vis: true,
@@ -357,6 +369,20 @@ pub fn gen_verdict_case_with(t: &mut Tape, force: Option<u64>) -> VerdictCase {
             }
         }
     }
+    if has_cell {
+        let cell = Item::Type(TypeDef {
+            vis: true,
+            name: "Cell".into(),
+            packed: true,
+            fields: vec![Field::new("a", Ty::n("u32")), Field::new("b", Ty::n("u32"))],
+            ..Default::default()
+        });
+        if cell_first {
+            m.items.insert(0, cell);
+        } else {
+            m.items.push(cell);
+        }
+    }
     let mut mods = vec![m];
     if !second.items.is_empty() {
         mods.push(second);
@@ -375,7 +401,7 @@ impl Prop for Verdict_ {
         "C06/verdict".into()
     }
     fn rule(&self) -> String {
-        "chains of depth 1-4 over a root with a 0-4 slot table (index gaps, all seven conventions, 0-3 parameters of integer, *const/*mut (also to the root type, two levels deep, to arrays) and small array types, optional return), optional second base with its own table, intermediate levels extending or inheriting the table; the last level's own block is the compatible prefix (+0-2 new slots) with at most one mutation: renamed slot, receiver flipped, one parameter's type changed in one place (leaf, pointer kind, array length, one level of indirection; any parameter), return type added/removed/changed the same way, calling convention changed to a different effective one, last base slot missing, two differing slots swapped, the size that restates slots reserved by the base's #[size] dropped, the last inherited function moved one slot further by an #[index], the block's text kept but placed in a second module where a type name it mentions denotes another type; controls: no mutation, default convention spelled out, the faithful block in a second module that imports what it mentions. Oracle: Ok iff no mutation. Every case is non-trivial (depth >= 2, or >= 2 bases, or a mutation)".into()
+        "chains of depth 1-4 over a root with a 0-4 slot table (index gaps, all seven conventions, 0-3 parameters of integer, *const/*mut (also to the root type, two levels deep, to arrays) and small array types, optional return), optional second base with its own table, in half of the programs levels also hold a member or an array of members of a plain type declared before or after the chain, intermediate levels extending or inheriting the table; the last level's own block is the compatible prefix (+0-2 new slots) with at most one mutation: renamed slot, receiver flipped, one parameter's type changed in one place (leaf, pointer kind, array length, one level of indirection; any parameter), return type added/removed/changed the same way, calling convention changed to a different effective one, last base slot missing, two differing slots swapped, the size that restates slots reserved by the base's #[size] dropped, the last inherited function moved one slot further by an #[index], the block's text kept but placed in a second module where a type name it mentions denotes another type; controls: no mutation, default convention spelled out, the faithful block in a second module that imports what it mentions. Oracle: Ok iff no mutation. Every case is non-trivial (depth >= 2, or >= 2 bases, or a mutation)".into()
     }
     fn gen(&self, t: &mut Tape) -> VerdictCase {
         gen_verdict_case(t)
